@@ -3,7 +3,7 @@
 (* full host alphabet at small depth. Conformance core for C05 C06 C08 C11.  *)
 EXTENDS Instance, Json
 
-CONSTANT Depth
+CONSTANTS Depth, WithQ
 VARIABLES st, env, res, hist
 vars == <<st, env, res, hist>>
 
@@ -11,8 +11,13 @@ MC_Own == 5
 MC_OwnP == [p1 |-> 128, p2 |-> 128]
 MC_Q0 == [class |-> 248, acc |-> 254, var |-> 65535]
 MC_TP0 == [utc |-> "null", leap |-> 0, tt |-> FALSE, ft |-> FALSE, ptp |-> FALSE, src |-> 160]
-MC_PCfg == << [p2p |-> FALSE, mo |-> FALSE, aml |-> "any", keep |-> 1],
-              [p2p |-> FALSE, mo |-> FALSE, aml |-> "any", keep |-> 1] >>
+E2E(mo, aml) == [p2p |-> FALSE, mo |-> mo, aml |-> aml, keep |-> 1]
+P2P(mo, aml) == [p2p |-> TRUE, mo |-> mo, aml |-> aml, keep |-> 1]
+PCfg_A == << E2E(FALSE, "any"), E2E(FALSE, "any") >>           \* plain boundary clock
+PCfg_B == << E2E(FALSE, "any"), E2E(TRUE, "any") >>            \* port 2 master-only
+PCfg_C == << E2E(FALSE, {2}), E2E(FALSE, "any") >>             \* port 1 accepts only master 2
+PCfg_D == << E2E(FALSE, "any"), P2P(FALSE, "any"), E2E(TRUE, "any") >>   \* three ports, one P2P, one master-only
+PCfg_E == << E2E(FALSE, "any") >>                              \* ordinary clock
 
 Masters == {2, 9}
 GmOf(m) == IF m = 2 THEN <<127, 248, 254, 65535, 128, 2>> ELSE <<128, 248, 254, 65535, 128, 9>>
@@ -39,6 +44,7 @@ Events ==
   \cup {[e |-> "bmca"]}
   \cup {[e |-> "t", k |-> k, p |-> p] : k \in {"ann", "sync", "dreq", "rcpt"}, p \in Ports}
   \cup {[e |-> "so", v |-> v] : v \in BOOLEAN}
+  \cup (IF WithQ THEN {[e |-> "q", q |-> [class |-> c, acc |-> 254, var |-> 65535]] : c \in {6, 248}} ELSE {})
 
 EnvStep(ev) ==
   IF ev.e = "ann" THEN
@@ -61,5 +67,21 @@ View == <<ViewOf(st), env>>
 Bound == Len(hist) < Depth
 Emit == PrintT(<<"E", ToJson([hist |-> hist', exp |-> Proj(st') @@ res'])>>)
 
+\* ---------------------------------------------------------------- C08 on the model
 OneSlave == Cardinality({p \in Ports : st.pst[p] = "S"}) <= 1
+MasterOnlyNeverSlave == \A p \in Ports : PCfg[p].mo => st.pst[p] # "S"
+\* slave-only from the start and never switched off: no master port ever
+SlaveOnlyInit == (SO0 /\ \A i \in 1..Len(hist) : hist[i].e # "so") => \A p \in Ports : st.pst[p] # "M"
+\* after slave-only was switched on, a completed BMCA leaves no master port
+SlaveOnlyLate == (Len(hist) > 0 /\ hist[Len(hist)].e = "bmca" /\ st.so) => \A p \in Ports : st.pst[p] # "M"
+Frames(r) == IF "out" \in DOMAIN r THEN {<<Fld(r.out[i], "src", NoPid)[2], r.out[i]>> : i \in {j \in 1..Len(r.out) : r.out[j].a \in {"E", "G"}}}
+             ELSE {}
+EmitOK == \A f \in Frames(res') :
+            /\ f[2].t \in {"Announce", "Sync", "FollowUp", "DelayResp"} => st.pst[f[1]] = "M"
+            /\ f[2].t = "DelayReq" => st.pst[f[1]] = "S"
+Emitters == [][EmitOK]_vars
+ClockOK == \A i \in 1..Len(res'.clk) :
+             LET c == res'.clk[i] IN
+             c[2] = "freq" => IF c[3] = 0 THEN (st.pst[c[1]] \in {"S", "F"} \/ st'.pst[c[1]] = "F") ELSE st.pst[c[1]] = "S"
+ClockOwner == [][ClockOK]_vars
 =============================================================================
